@@ -219,7 +219,9 @@ def check(case):
 
 
 def tables_for(n, tier, seed):
+    # weight 10 = the part-of-speech total (probability 1, information content 0)
     allt = list(itertools.product((1, 2, 5), repeat=n))
+    allt += [t for t in itertools.product((1, 2, 10), repeat=n) if 10 in t and (n <= 2 or t.count(10) <= 2)]
     if n <= 3 or tier == 'thorough':
         return allt
     return [allt[0], allt[-1]] + [allt[(7 * k + seed) % len(allt)] for k in range(1, 7)]
@@ -227,8 +229,11 @@ def tables_for(n, tier, seed):
 
 def space(tier, seed):
     from .c13 import family_graphs
-    gs = [dict(g, tables=[tuple([2] * g['n']), tuple((1, 2, 5)[i % 3] for i in range(g['n']))])
+    gs = [dict(g, tables=[tuple([2] * g['n']), tuple((1, 2, 5)[i % 3] for i in range(g['n'])),
+                          tuple((10, 5, 1, 2)[i % 4] for i in range(g['n']))])
           for g in family_graphs(tier)]
+    for h in range(1 << 6):
+        gs.append({'n': 3, 'loops': False, 'h': h, 'decoy': True, 'tables': [(2, 2, 2), (10, 1, 5)]})
     for n in (1, 2, 3):
         for h in range(1 << (n * n)):
             gs.append({'n': n, 'loops': True, 'h': h, 'tables': tables_for(n, tier, seed)})
